@@ -75,6 +75,8 @@ class _Tr:
             return True
         if isinstance(node, ast.BoolOp):
             return all(self.strict_bool(v, env) for v in node.values)
+        if isinstance(node, ast.Call) and isinstance(node.func, ast.Name) and node.func.id == "bool" and len(node.args) == 1:
+            return True
         return False
 
     def unknown(self, node):
@@ -86,6 +88,14 @@ class _Tr:
 
     def bexp(self, node, env):
         node = self.resolve(node, env)
+        if isinstance(node, ast.Call) and isinstance(node.func, ast.Name) and node.func.id == "bool" \
+                and len(node.args) == 1 and not node.keywords:
+            return self.bexp(node.args[0], env)
+        inl = self.inline_call(node, env)
+        if inl is not None:
+            body, env2 = inl
+            if len(body) == 1 and isinstance(body[0], ast.Return) and body[0].value is not None:
+                return self.bexp(body[0].value, env2)
         if isinstance(node, ast.Constant) and isinstance(node.value, bool):
             return ".const %s" % ("true" if node.value else "false")
         if isinstance(node, ast.BoolOp):
@@ -154,10 +164,69 @@ class _Tr:
             return self.unknown(node)
         return self.unknown(node)
 
+    # ---------------------------------------------------------------- helper methods
+    methods = {}      # name -> FunctionDef of the FinalFeedback class (set by translate)
+
+    def inline_call(self, node, env, depth=0):
+        """`self._m(args)` / `FinalFeedback._m(args)` of a method of the class -> (body statements, environment with
+        the parameters bound to the argument expressions), else None."""
+        if not (isinstance(node, ast.Call) and isinstance(node.func, ast.Attribute)
+                and isinstance(node.func.value, ast.Name) and node.func.value.id in ("self", "FinalFeedback", "cls")
+                and node.func.attr in self.methods and not node.keywords):
+            return None
+        fn = self.methods[node.func.attr]
+        params = [a.arg for a in fn.args.args]
+        static = any(isinstance(d, ast.Name) and d.id == "staticmethod" for d in fn.decorator_list)
+        if not static and params and params[0] in ("self", "cls"):
+            params = params[1:]
+        if len(params) != len(node.args) or fn.args.vararg or fn.args.kwarg or fn.args.kwonlyargs:
+            return None
+        env2 = dict(env)
+        for prm, arg in zip(params, node.args):
+            if not (isinstance(arg, ast.Name) and arg.id == prm and prm not in env):
+                env2[prm] = self.resolve(arg, env) if isinstance(arg, ast.Name) and arg.id in env else arg
+            if isinstance(arg, ast.Name) and arg.id == "feedback":
+                env2.pop(prm, None) if prm == "feedback" else env2.__setitem__(prm, arg)
+        body = [b for b in fn.body if not (isinstance(b, ast.Expr) and isinstance(b.value, ast.Constant))]
+        return body, env2
+
+    def text_of_body(self, stmts, env, depth=0):
+        """A helper's body that RETURNS the signed score text: assignments, `if c: return t1` ... `return t2`.
+        -> BExp for 'the returned text starts with a bang', or None."""
+        env = dict(env)
+        for i, st in enumerate(stmts):
+            if isinstance(st, ast.Assign) and len(st.targets) == 1 and isinstance(st.targets[0], ast.Name):
+                env[st.targets[0].id] = None if st.targets[0].id in env else st.value
+                continue
+            if isinstance(st, ast.Return) and st.value is not None:
+                return self.inversion_of(st.value, env, depth + 1)
+            if isinstance(st, ast.If):
+                t = self.text_of_body(st.body, env, depth + 1)
+                e = self.text_of_body(st.orelse + stmts[i + 1:], env, depth + 1)
+                if t is None or e is None:
+                    return None
+                c = self.bexp(st.test, env)
+                return ".or (.and (%s) (%s)) (.and (.not (%s)) (%s))" % (c, t, c, e)
+            return None
+        return None
+
     # ---------------------------------------------------------------- statements
-    def inversion_of(self, joined, env):
+    def inversion_of(self, joined, env, depth=0):
         """f"{inversion}{partial}" -> BExp for 'the text starts with a bang', or None."""
         joined = self.resolve(joined, env)      # the text may have been built into a local first
+        if depth < 4:
+            inl = self.inline_call(joined, env)
+            if inl is not None:
+                return self.text_of_body(inl[0], inl[1], depth)
+        if isinstance(joined, ast.JoinedStr) and len(joined.values) in (1, 2):
+            vals = joined.values
+            last = vals[-1]
+            if (isinstance(last, ast.FormattedValue) and last.conversion == -1 and not last.format_spec
+                    and self.is_attr(self.resolve(last.value, env), "feedback", "score")):
+                if len(vals) == 1:
+                    return ".const false"
+                if isinstance(vals[0], ast.Constant) and vals[0].value == "!":
+                    return ".const true"
         if not isinstance(joined, ast.JoinedStr) or len(joined.values) != 2:
             return None
         a, b = joined.values
@@ -288,6 +357,12 @@ class _Tr:
 
     # ---------------------------------------------------------------- finalize
     def fexp(self, node):
+        if (isinstance(node, ast.Call) and isinstance(node.func, ast.Attribute) and isinstance(node.func.value, ast.Name)
+                and node.func.value.id == "self" and node.func.attr in self.methods and not node.args and not node.keywords):
+            fn = self.methods[node.func.attr]
+            body = [b for b in fn.body if not (isinstance(b, ast.Expr) and isinstance(b.value, ast.Constant))]
+            if len(body) == 1 and isinstance(body[0], ast.Return) and body[0].value is not None:
+                return self.fexp(body[0].value)
         if isinstance(node, ast.Constant) and isinstance(node.value, bool):
             return ".const %s" % ("true" if node.value else "false")
         if isinstance(node, ast.BoolOp):
@@ -413,6 +488,7 @@ def translate():
     fin = next(n for n in cls.body if isinstance(n, ast.FunctionDef) and n.name == "finalize")
     pf = next(n for n in tree.body if isinstance(n, ast.FunctionDef) and n.name == "parse_feedback")
     tr = _Tr(ff, Feedback, FinalFeedback)
+    tr.methods = {n.name: n for n in cls.body if isinstance(n, ast.FunctionDef) and n.name not in ("merge", "finalize")}
 
     # parse_feedback: locals and the returned tuple, over its parameter (renamed to `feedback`)
     pf_env = {}
